@@ -389,3 +389,41 @@ package oauth2
 //@   ensures [C09.active-iff] !acc_exists[asig] && !(ref_exists[rsig] && ref_active[rsig]) ==> result1 != nil
 //@   ensures [C09.validated] result1 == nil ==> validated_n[token] > old(validated_n[token])
 //@   ensures [C09.inactive-result] result1 != nil ==> result0 == ""
+
+// ---- C13: the authorize endpoint handlers of this package ----
+// inv: a response that carries access_token/id_token belongs to a request whose default response mode is fragment
+// and whose response type is not exactly "code" (see fosite.AuthorizeEndpointHandler in /repo/verif_contracts.go).
+//@ func (*AuthorizeImplicitGrantTypeHandler).IssueImplicitAccessToken
+//@   requires c != nil && ar != nil && resp != nil && ar.GetSession() != nil && ar.GetClient() != nil
+//@   modifies acc_exists, acc_rid, acc_client, acc_req, stored, faults, tx_escaped, ar.GetSession().GetExpiresAt(fosite.AccessToken), ar.GetRequestForm(), mapof(resp.GetParameters()), resp.GetCode(), ar.DidHandleAllResponseTypes()
+//@   ensures [C13.implicit-params] forall k string :: (k in resp.GetParameters()) ==> (old(k in resp.GetParameters()) || k == "access_token" || k == "expires_in" || k == "token_type" || k == "state" || k == "scope")
+//@   ensures [C13.implicit-params] err == nil ==> ("access_token" in resp.GetParameters()) && ("state" in resp.GetParameters())
+
+//@ func (*AuthorizeImplicitGrantTypeHandler).HandleAuthorizeEndpointRequest
+//@   let inv = tokparams(resp.GetParameters()) ==> (ar.GetDefaultResponseMode() == fosite.ResponseModeFragment && !ar.GetResponseTypes().ExactOne("code"))
+//@   requires c != nil && ar != nil && resp != nil && ar.GetSession() != nil && ar.GetClient() != nil
+//@   modifies everything
+//@   ensures [C13.tokens-imply-fragment-default] err == nil && old(inv) ==> inv
+//@   ensures [C13.implicit-needs-grant] err == nil && old(ar.GetResponseTypes().ExactOne("token")) ==> ar.GetClient().GetGrantTypes().Has("implicit")
+//@   ensures [C13.token-only-when-requested] !old(ar.GetResponseTypes().ExactOne("token")) ==> err == nil && (forall k string :: (k in resp.GetParameters()) == old(k in resp.GetParameters())) && ar.GetDefaultResponseMode() == old(ar.GetDefaultResponseMode())
+//@   ensures ar.GetResponseTypes() == old(ar.GetResponseTypes()) && ar.GetResponseMode() == old(ar.GetResponseMode()) && resp.GetParameters() == old(resp.GetParameters())
+//@   invariant loop#1 ar.GetDefaultResponseMode() == fosite.ResponseModeFragment
+
+//@ func (*AuthorizeExplicitGrantHandler).IssueAuthorizeCode
+//@   requires c != nil && ar != nil && resp != nil && ar.GetSession() != nil && ar.GetClient() != nil
+//@   modifies code_exists, code_active, code_rid, code_client, code_req, stored, faults, tx_escaped, ar.GetSession().GetExpiresAt(fosite.AuthorizeCode), ar.GetRequestForm(), mapof(resp.GetParameters()), resp.GetCode(), ar.DidHandleAllResponseTypes()
+//@   ensures [C13.code-params] forall k string :: (k in resp.GetParameters()) ==> (old(k in resp.GetParameters()) || k == "code" || k == "state" || k == "scope")
+
+//@ func (*AuthorizeExplicitGrantHandler).HandleAuthorizeEndpointRequest
+//@   let inv = tokparams(resp.GetParameters()) ==> (ar.GetDefaultResponseMode() == fosite.ResponseModeFragment && !ar.GetResponseTypes().ExactOne("code"))
+//@   requires c != nil && ar != nil && resp != nil && ar.GetSession() != nil && ar.GetClient() != nil
+//@   modifies everything
+//@   ensures [C13.tokens-imply-fragment-default] err == nil && old(inv) ==> inv
+//@   ensures [C13.token-only-when-requested] forall k string :: (k in resp.GetParameters()) ==> (old(k in resp.GetParameters()) || k == "code" || k == "state" || k == "scope")
+//@   ensures ar.GetResponseTypes() == old(ar.GetResponseTypes()) && ar.GetResponseMode() == old(ar.GetResponseMode()) && resp.GetParameters() == old(resp.GetParameters())
+//@ func (*AuthorizeExplicitGrantHandler).GetSanitationWhiteList
+//@   requires c != nil
+//@   ensures len(result) > 0
+//@ func (*AuthorizeExplicitGrantHandler).secureChecker
+//@   requires c != nil
+//@   ensures result != nil
